@@ -260,8 +260,94 @@ func partA(r *rep.Run, thorough bool) {
 				}
 			}
 		}
+		// a connection dies silently and is re-established: the registry holds the stale closed session next to its open twin
+		// (to the same address) and a session to another coordinator; repeated, because the registry is walked in map order
+		for a := range addrs {
+			for b := range addrs {
+				if a == b {
+					continue
+				}
+				for x := range xids {
+					for _, h := range []History{
+						{fmt.Sprintf("o%d", a), fmt.Sprintf("o%d", b), "d0", fmt.Sprintf("o%d", a), fmt.Sprintf("s%d", x)},
+						{fmt.Sprintf("o%d", a), fmt.Sprintf("o%d", b), "d1", fmt.Sprintf("o%d", b), fmt.Sprintf("s%d", x)},
+						{fmt.Sprintf("o%d", a), "d0", fmt.Sprintf("o%d", a), fmt.Sprintf("o%d", b), "d0", fmt.Sprintf("s%d", x)},
+					} {
+						for rep := 0; rep < 12; rep++ {
+							n++
+							r.Eval(true)
+							r.Count("stale_twin_histories", 1)
+							if clause, detail := run(p, h); clause != "" {
+								r.Violate(fmt.Sprintf("%s/%s", clause, p), clauseA, Located{p, h}, detail+fmt.Sprintf(" | history %v", h))
+								break
+							}
+						}
+					}
+				}
+			}
+		}
 		r.Count("histories/"+p, int64(n))
+		waitingSelection(r, p)
 		ringSweep(r, p, 400)
+	}
+}
+
+// waitingSelection: a selection that started with no session at all waits for one (check-alive polling). While it waits, a
+// flapping reconnect registers a session that is already dead and a healthy one, in either order; after the next poll the
+// selection must hand out the healthy one, never the closed one.
+func waitingSelection(r *rep.Run, policy string) {
+	for _, order := range []string{"closed-first", "open-first", "closed-open-closed"} {
+		for x := range xids {
+			quiet.Spin(nil, 2)
+			sgetty.VerifResetRemoting()
+			loadbalance.VerifReset()
+			config.GetSeataConfig().LoadBalanceType = policy
+			vtime.SetVirtual(nil)
+			vtime.AutoTick = false
+			msg := message.RpcMessage{ID: 1, Type: message.GettyRequestTypeRequestSync, Codec: byte(codec.CodecTypeSeata), Body: body(xids[x])}
+			done := make(chan getty.Session, 1)
+			go func() { done <- sgetty.VerifSelectSession(msg) }()
+			quiet.Spin(func() bool { return len(done) > 0 }, 3) // now parked at the ticker
+			dead := &sess{id: 0, addr: addrs[0], closed: true}
+			dead2 := &sess{id: 2, addr: addrs[1], closed: true}
+			live := &sess{id: 1, addr: addrs[0]}
+			switch order {
+			case "closed-first":
+				sgetty.VerifRegisterSession(dead)
+				sgetty.VerifRegisterSession(live)
+			case "open-first":
+				sgetty.VerifRegisterSession(live)
+				sgetty.VerifRegisterSession(dead)
+			default:
+				sgetty.VerifRegisterSession(dead)
+				sgetty.VerifRegisterSession(live)
+				sgetty.VerifRegisterSession(dead2)
+			}
+			h := History{"select (waits)", order, fmt.Sprintf("s%d", x)}
+			var got getty.Session
+			returned := false
+			for tick := 0; tick < 12 && !returned; tick++ {
+				vtime.Tick(0)
+				quiet.Spin(func() bool { return len(done) > 0 }, 3)
+				select {
+				case got = <-done:
+					returned = true
+				default:
+				}
+			}
+			vtime.SetPassThrough()
+			r.Eval(true)
+			r.Count("waiting_selection_cases", 1)
+			if !returned {
+				r.Violate("waiting-selection-never-returns/"+policy, clauseA, Located{policy, h}, "an open session was registered while the selection waited; twelve polls later it still has not returned")
+				continue
+			}
+			if gs, ok := got.(*sess); ok && gs != nil && gs.IsClosed() {
+				r.Violate("closed-session-chosen/"+policy, clauseA, Located{policy, h}, fmt.Sprintf("the waiting selection was handed session %d (%s), which is closed, although session %d (%s) is open", gs.id, gs.addr, live.id, live.addr))
+			} else if got == nil {
+				r.Violate("nil-although-open/"+policy, clauseA, Located{policy, h}, "the waiting selection returned nil although an open session had been registered")
+			}
+		}
 	}
 }
 
